@@ -28,13 +28,16 @@ BUILDER_RAISES = ['8rJ', '2r[', 'r]', '2r;]', '4r_', '4rL', 'z2r[', '4r/']
 NONASCII = ['4f\u266f', '4\u00a0f#', '\u00bf4E', '4a\x7fL', '4c\u266d', '\u00e9', '\u65e54c', '4c\x01', '\x1b4c']
 # a token truncated to nothing: an empty cell (two tabs in a row, a trailing tab) is an error in a spine of ANY type
 EMPTY = ['']
-MALFORMED = UNKNOWN + WRONG_ORDER + TRUNCATED + GARBAGE_APPENDED + BUILDER_RAISES + NONASCII + EMPTY + EMPTY
+# truncated bounding boxes: the recogniser recovers from them in its own way (the tree walk meets missing children)
+BBOX_DAMAGED = ['*xywh-1:10,20,300', '*xywh-1:10,20', '*xywh-1', '*xywh', '*xywh-1:10;20;300;400']
+MALFORMED = UNKNOWN + WRONG_ORDER + TRUNCATED + GARBAGE_APPENDED + BUILDER_RAISES + NONASCII + EMPTY + EMPTY + BBOX_DAMAGED
 # malformed by construction (an unknown character, a wrong order, a truncation that is no token): a kern spine MUST
 # report these, whatever the recogniser of the tree under test says.  (The others are a valid token followed by
 # garbage, which kernpy accepts and shortens - finding K7 - so for them the recogniser's own verdict is used.)
 MUST_REJECT = {'4zz', 'h', '\u00d64c', '\u00a7', '4c 4zz', '%%', '4&c&&', 'u', 'c4', '#4c', 'c#4', '4#c', 'r4', '=|1|', '=:1',
                '4', '16.', '*cle', '*k[f#', '*M4/', '*met(c', '4%', '8q', '*clef', '4cc#4%',
                '8rJ', '2r[', 'r]', '2r;]', '4r_', '4rL', 'z2r[', '4r/',
+               '*xywh-1:10,20,300', '*xywh-1:10,20', '*xywh-1', '*xywh', '*xywh-1:10;20;300;400',
                '4f\u266f', '4\u00a0f#', '\u00bf4E', '4a\x7fL', '4c\u266d', '\u00e9', '\u65e54c', '4c\x01', '\x1b4c'}
 
 
